@@ -154,4 +154,23 @@ Why(prog, bpa, big0, obs) ==
   ELSE IF DOMAIN d.img # {} /\ (obs.low # SetMin(DOMAIN d.img) \/ obs.high # SetMax(DOMAIN d.img))
        THEN "low/high address differs"
   ELSE "symbol table differs"
+-----------------------------------------------------------------------------
+(* Translation: the location counter is a 32-bit quantity and nothing in the meaning of these directives depends   *)
+(* on where in the address space a program stands.  A program P that contains no `$` or label operands, assembled  *)
+(* with every .org moved up by 2^31 bytes (and a leading .org 2^31), denotes Denote(P) moved up by 2^31 bytes:      *)
+(* same accept/reject outcome, same bytes, every address 2^31 higher, every label 2^31 / bpa units higher.          *)
+(* Addresses above 2^31 are not TLC integers: the two observations carry them as (ah, al) = (a div 65536, a mod     *)
+(* 65536); lo is also judged against Denote on its own.                                                             *)
+HalfHi == 32768
+ShiftRec(a, b, dh) == b.ah = a.ah + dh /\ b.al = a.al
+ShiftOk(e) ==
+  /\ e.hi.k = e.lo.k
+  /\ (e.lo.k = "ok" =>
+        /\ Len(e.hi.img) = Len(e.lo.img)
+        /\ \A i \in 1..Len(e.lo.img) : ShiftRec(e.lo.img[i], e.hi.img[i], HalfHi) /\ e.hi.img[i].d = e.lo.img[i].d
+        /\ Len(e.hi.syms) = Len(e.lo.syms)
+        /\ \A i \in 1..Len(e.lo.syms) : e.hi.syms[i].n = e.lo.syms[i].n /\ ShiftRec(e.lo.syms[i], e.hi.syms[i], HalfHi \div e.bpa)
+        /\ (e.lo.img # <<>> => ShiftRec(e.lo.low, e.hi.low, HalfHi) /\ ShiftRec(e.lo.high, e.hi.high, HalfHi)))
+ShiftWhy(e) == IF e.hi.k # e.lo.k THEN "accepted at one place of the address space, rejected 2^31 bytes higher"
+               ELSE "the program assembled 2^31 bytes higher is not the same image moved up"
 =============================================================================
